@@ -170,6 +170,8 @@ pub struct Interp<'a> {
     next_local_id: u32,
     events: Vec<Event>,
     ghost_acc: Option<u8>,
+    /// addresses whose content is unspecified since a strobe wrote the accumulator there
+    strobed: std::collections::BTreeSet<u16>,
     acc_valid: bool,
     unspecified: Vec<String>,
     depth: u32,
@@ -206,6 +208,7 @@ impl<'a> Interp<'a> {
             next_local_id: 0,
             events: vec![],
             ghost_acc: None,
+            strobed: Default::default(),
             acc_valid: false,
             unspecified: vec![],
             depth: 0,
@@ -290,6 +293,9 @@ impl<'a> Interp<'a> {
 
     fn mem_read(&mut self, addr: u16) -> R<u8> {
         self.eff.last_mut().unwrap().reads.push(addr as u32);
+        if self.strobed.contains(&addr) {
+            return Err(Abort::Unspecified("read of a location last written by a strobe".into()));
+        }
         if (addr as usize) < MEM_SIZE {
             Ok(self.mem[addr as usize])
         } else {
@@ -303,6 +309,7 @@ impl<'a> Interp<'a> {
     fn mem_write(&mut self, addr: u16, b: u8) -> R<()> {
         self.eff.last_mut().unwrap().writes.push(addr as u32);
         self.note(addr as u64, b as u64);
+        self.strobed.remove(&addr);
         if (addr as usize) < MEM_SIZE {
             self.mem[addr as usize] = b;
             Ok(())
@@ -1331,6 +1338,7 @@ impl<'a> Interp<'a> {
                 let loc = self.resolve_lv(lv)?;
                 if let Some(a) = self.loc_addr(&loc) {
                     self.events.push(Event::Strobe(a));
+                    self.strobed.insert(a);
                 }
                 // a strobe writes an unspecified value
                 if let Loc::Var(n, _, _) = &loc {
